@@ -723,6 +723,11 @@ func (b *Builder) UnBounded(o interface{}, x bool) {
 
 func (b *Builder) Default(o interface{}, defaultVal string) {
 	if h, valid := o.(HasDefault); valid {
+		if _, single := o.(HasDefaultValue); single && h.HasDefault() {
+			// only a leaf-list (and what adds defaults to one) takes several
+			b.setErr(fmt.Errorf("%T has a default already", o))
+			return
+		}
 		h.addDefault(defaultVal)
 	} else {
 		b.setErr(fmt.Errorf("%T does not support default", o))
